@@ -50,19 +50,6 @@ def make_lr(spec):
   raise ValueError(k)
 
 
-def lr_value(spec, t):
-  """float64 value of the schedule at integer t (the model's clock)."""
-  k = spec['kind']
-  v = float(spec['v'])
-  if k == 'const':
-    return v
-  if k == 'linear':
-    return v * max(float(spec.get('floor', 0.0)), 1.0 - t / float(spec['T']))
-  if k == 'halving':
-    return v * (0.5 ** (t // int(spec['every'])))
-  raise ValueError(k)
-
-
 def build_optimizer(cfg, lr_spec, mode, D):
   kw = dict(DEFAULTS)
   kw.update(cfg)
